@@ -220,8 +220,18 @@ def run(ctx):
                 return set()
             ebc = ExprBuilder(cb)
             edges = {}
+            from ..expr import resolve_upvars as _ru
+
+            def _res(g):
+                # captured values (a hoisted `reference.stream_models.len()`) by value
+                if len(g) > 1 and isinstance(g[1], tuple):
+                    try:
+                        return (g[0], _ru(p, cb, g[1])) + tuple(g[2:])
+                    except Exception:  # noqa: BLE001
+                        return g
+                return g
             for sb, g, tg in paths.switch_outcomes(cb, ebc):
-                edges.setdefault((sb, tg), []).append(g)
+                edges.setdefault((sb, tg), []).append(_res(g))
             flip = lambda g: (("false" if g[0] == "true" else "true"),) + tuple(g[1:])
             covers = None
             stack = [(0, (), {}, 0)]
@@ -256,7 +266,7 @@ def run(ctx):
                         continue
                     ks = set(held)
                     if r is not None and r[0] == "e":
-                        k = classify(("true" if reject else "false", r[1]))
+                        k = classify(_res(("true" if reject else "false", r[1])))
                         if k:
                             ks.add(k)
                     covers = ks if covers is None else covers & ks
